@@ -30,6 +30,11 @@ CanFill(s, n) == Blocked(s) /\ n >= 1 /\ s.rd + n <= Len(s.file)
 Fill(s, n) == [s EXCEPT !.rd = @ + n]
 CanEof(s) == Blocked(s) /\ s.rd = Len(s.file)
 FillEof(s) == [s EXCEPT !.eof = TRUE]
+\* a reader may hand over its last bytes together with the end (n > 0 and io.EOF in one read), and may deliver nothing at all
+\* without an error (a zero-byte read changes nothing; the loader asks again)
+CanFillLast(s, n) == Blocked(s) /\ n >= 1 /\ s.rd + n = Len(s.file)
+FillLast(s, n) == [s EXCEPT !.rd = @ + n, !.eof = TRUE]
+CanZero(s) == Blocked(s)
 \* ---- the loader
 At(s, j) == s.file[s.cons + j]
 Take(s, n) == SubSeq(s.file, s.cons + 1, s.cons + n)
@@ -89,7 +94,8 @@ Step(s) == CASE s.sec = "magic" -> StMagic(s) [] s.sec = "ver" -> StVer(s)
 CanStep(s) == ~Done(s) /\ ~Blocked(s)
 \* bufio's error is not sticky: the end of the source, once the loader has seen it (a step taken with less than it needs), is
 \* forgotten, and the next step that needs more asks the source again (and is told the end again)
-StepL(s) == [Step(s) EXCEPT !.eof = FALSE]
+\* (forgotten exactly when it was consulted: a step that found what it needed in the buffer leaves a pending end pending)
+StepL(s) == [Step(s) EXCEPT !.eof = IF Held(s) < Need(s) THEN FALSE ELSE s.eof]
 \* the loader runs until it needs the source again (or is done)
 RECURSIVE Run(_)
 Run(s) == IF CanStep(s) THEN Run(StepL(s)) ELSE s
